@@ -92,11 +92,52 @@ func touchedFieldsAndCalls(path string) (map[string][]string, map[string]map[str
 }
 
 // checkConstructors evaluates the static oracle on one generated service package.
-func checkConstructors(p *Pool, serviceGo string, res *vh.Result) {
+func checkConstructors(p *Pool, serviceGo string, res *vh.Result) (items []string) {
 	touched, calls, err := touchedFieldsAndCalls(serviceGo)
 	if err != nil {
 		failSig(res, "generated-service-unparsable", "cannot parse generated "+serviceGo+": "+err.Error(), map[string]any{"stream": "tierB/static", "pool": p})
-		return
+		return nil
+	}
+	// the plan of a constructor as a Coq term: fields in the order of the type, with the nested
+	// constructor called for the field read back as (collection?, type, view)
+	planTerm := func(t *PType, fn string) string {
+		var es []string
+		known := map[string]bool{}
+		for _, a := range t.Attrs {
+			gf := codegen.Goify(a.Name, true)
+			known[gf] = true
+			if !containsStr(touched[fn], gf) {
+				continue
+			}
+			call := "None"
+			if c, ok := calls[fn][gf]; ok && a.isRes() {
+				call = "(Some (false, (T 9999), (V 9999)))" // a constructor of no view of the attribute's type
+				if rt := p.typ(a.Ref); rt != nil {
+					for _, u := range rt.Views {
+						suf := ""
+						if u.Name != "default" {
+							suf = codegen.Goify(u.Name, true)
+						}
+						for _, coll := range []bool{false, true} {
+							base := a.Ref
+							if coll {
+								base += "Collection"
+							}
+							if c == "new"+base+"View"+suf || c == "new"+base+suf {
+								call = fmt.Sprintf("(Some (%s, %s, %s))", vh.CoqBool(coll), coqT(a.Ref), coqV(u.Name))
+							}
+						}
+					}
+				}
+			}
+			es = append(es, fmt.Sprintf("(%s, %s)", coqA(a.Name), call))
+		}
+		for _, g := range touched[fn] {
+			if !known[g] {
+				es = append(es, "((A 9999), None)")
+			}
+		}
+		return vh.CoqList(es)
 	}
 	for _, t := range p.Types {
 		if t.Plain {
@@ -114,6 +155,7 @@ func checkConstructors(p *Pool, serviceGo string, res *vh.Result) {
 				continue // type not reachable from a method of this design
 			}
 			res.Count("tierB_static_constructors")
+			items = append(items, fmt.Sprintf("(%s, %s, %s, %s)", coqT(t.Name), coqV(v.Name), planTerm(t, name), planTerm(t, "new"+t.Name+suffix)))
 			var want []string
 			for _, e := range v.Attrs {
 				if t.attr(e.Attr) != nil {
@@ -179,6 +221,7 @@ func checkConstructors(p *Pool, serviceGo string, res *vh.Result) {
 			}
 		}
 	}
+	return items
 }
 
 func containsStr(xs []string, s string) bool {
